@@ -37,6 +37,7 @@ func leafPool() []*FD {
 		{Name: "fh", Args: []IV{iv("ll", LT(LT(N("Int"))), nil), iv("le", LT(N("E0")), nil)}, T: N("Int")},
 		{Name: "fi", Args: []IV{iv("req", NN(N("In0")), nil), iv("s", NN(N("String")), VStr("z"))}, T: N("Int")},
 		{Name: "fj", Args: []IV{iv("ids", NN(LT(NN(N("ID")))), nil), iv("j", N("JSON"), nil)}, T: N("Float")},
+		{Name: "fk", Args: []IV{iv("vals", LT(NN(N("Int"))), VList(VInt("1"))), iv("req", NN(LT(NN(N("Int")))), nil), iv("ll", LT(LT(NN(N("Int")))), nil)}, T: N("Int")},
 	}
 }
 
@@ -181,6 +182,10 @@ func genSchema(r *common.Rand) *Schema {
 			}
 		}
 	}
+	// guaranteed material for the object-scope / interface-scope overlap mutations: I0 has name: String
+	if !hasField(ifaces[0], "name") {
+		ifaces[0].Fields = append(ifaces[0].Fields, cloneFD(poolBy["name"]))
+	}
 	implement := func(o *TD, it *TD) {
 		if o.Implements(it.Name) {
 			return
@@ -221,6 +226,9 @@ func genSchema(r *common.Rand) *Schema {
 			}
 			o.Fields = append(o.Fields, f)
 		}
+		if i == 0 && !hasField(o, "fg") {
+			o.Fields = append(o.Fields, cloneFD(poolBy["fg"])) // a second String field besides I0.name
+		}
 		// every object has at least one plain leaf
 		if !hasField(o, "id") && r.Chance(2, 3) {
 			o.Fields = append(o.Fields, cloneFD(poolBy["id"]))
@@ -245,6 +253,15 @@ func genSchema(r *common.Rand) *Schema {
 		perm := r.Perm(len(objs))
 		for j := 0; j < k && j < len(perm); j++ {
 			u.Members = append(u.Members, objs[perm[j]].Name)
+		}
+		if i == 0 {
+			has := false
+			for _, m := range u.Members {
+				has = has || m == objs[0].Name
+			}
+			if !has {
+				u.Members = append(u.Members, objs[0].Name)
+			}
 		}
 		add(u)
 	}
@@ -278,7 +295,7 @@ func genSchema(r *common.Rand) *Schema {
 		f := cloneFD(compSig["to"+tn])
 		q.Fields = append(q.Fields, f)
 	}
-	for _, n := range []string{"fa", "fb", "fc", "fd", "fe", "ff", "fg", "fh", "fi", "fj", "name", "n", "li"} {
+	for _, n := range []string{"fa", "fb", "fc", "fd", "fe", "ff", "fg", "fh", "fi", "fj", "fk", "name", "n", "li"} {
 		q.Fields = append(q.Fields, cloneFD(poolBy[n]))
 	}
 	add(q)
